@@ -281,7 +281,18 @@ def single_def(fn, b):
     """The one expression that defines local binding b: the `let` initialiser when b is never
     re-assigned, or the right-hand side of the single assignment of a deferred `let b;`."""
     info = fn.bindings().get(b)
-    if not info or info["from"] != "let" or info.get("destruct"):
+    if not info or info["from"] != "let":
+        return None
+    if info.get("destruct"):
+        # `let (a, b) = { ...; (x, y) };` / `let (a, b) = (x, y);` : component i of a tuple expression
+        d = info["destruct"]
+        init = info.get("init")
+        if len(d) == 1 and d[0][0] == "ptup" and init is not None and not fn.assignments_to(b):
+            t = init
+            while t.get("k") == "block" and "tail" in t:
+                t = t["tail"]
+            if t.get("k") == "tup" and d[0][1] < len(t["a"]):
+                return t["a"][d[0][1]]
         return None
     asg = fn.assignments_to(b)
     if info.get("init") is not None:
